@@ -196,6 +196,8 @@ class C17(runner.Check):
             why = "empty-record"
         elif "\\" in s:
             why = "escape"
+        elif "invalid literal for int()" in text:
+            why = "float-param"
         st.violation("type-parse", "type-parse on %s: %s" % (layouts.short(d)[:300], text[:400]), {"layout": layouts.to_json(d), "type": s},
                      what="type-parse", why=why)
 
